@@ -962,8 +962,8 @@ func (s *subscriptionState) done() {
 	verifPoint("sub.close.begin", uint64(s.id.SubscriptionID), 0)
 	s.writeMu.Lock()
 	defer s.writeMu.Unlock()
-	close(s.completed)
 	verifPoint("sub.closed", uint64(s.id.SubscriptionID), 0)
+	close(s.completed)
 }
 
 // complete delivers a "subscription done" signal to the downstream writer.
